@@ -52,7 +52,7 @@ B = [
     '            try:\n                return self.graph.nodes[node]["output"]\n            except KeyError:\n                return False',
     '            return self.graph.nodes[node].get("output", False)')]),
  ("strip-ignore-pins-as-set", "C06,C09", [("circuitgraph/tx.py",
-    "    elif isinstance(ignore_pins, str):\n        ignore_pins = [ignore_pins]\n    g = c.graph.copy()",
+    "    elif isinstance(ignore_pins, str):\n        ignore_pins = [ignore_pins]\n    else:\n        ignore_pins = list(ignore_pins)\n    g = c.graph.copy()",
     "    elif isinstance(ignore_pins, str):\n        ignore_pins = {ignore_pins}\n    else:\n        ignore_pins = set(ignore_pins)\n    g = c.graph.copy()")]),
  ("cnf-self-fed-buf-emits-nothing-new", "C01,C08", [("circuitgraph/sat.py",
     '        elif n_type in ["buf", "bb_input"]:\n            if c.fanin(n):\n                f = c.fanin(n).pop()\n                formula.append([variables.id(n), -variables.id(f)])\n                formula.append([-variables.id(n), variables.id(f)])',
